@@ -6,7 +6,7 @@ use crate::lex;
 use crate::parse::PT;
 use crate::util::Dialect;
 use proptest::prelude::*;
-use sea_query::extension::postgres::{PgBinOper, PgExpr};
+use sea_query::extension::postgres::{PgBinOper, PgExpr, PgFunc};
 use sea_query::extension::sqlite::{SqliteBinOper, SqliteExpr};
 use sea_query::*;
 use serde::{Deserialize, Serialize};
@@ -212,6 +212,23 @@ pub enum F {
     Upper,
     Round,
     Custom,
+    Md5,
+    Random,
+    RoundPrec,
+    BitAndAgg,
+    BitOrAgg,
+    // Postgres extension functions
+    PgToTsquery,
+    PgToTsqueryCfg,
+    PgToTsvectorCfg,
+    PgTsRank,
+    PgStartsWith,
+    PgGenRandomUuid,
+    PgJsonAgg,
+    PgArrayAgg,
+    PgArrayAggDistinct,
+    PgDateTrunc,
+    PgJsonBuildObject,
 }
 
 /// a value of any supported type (used by C02); floats are stored as bits of a finite number
@@ -377,6 +394,8 @@ fn a(s: &str) -> Alias {
 
 /// the bound value every expression-level subquery carries (`WHERE "id" < 5` keeps every fixture row)
 pub const SUB_BOUND: i32 = 5;
+/// the regconfig given to the Postgres text-search constructors (bound as an unsigned value)
+pub const PG_REGCONFIG: u32 = 7;
 
 pub fn subquery() -> SelectStatement {
     Query::select().column(a("p")).from(a("tt")).and_where(Expr::col(a("id")).lt(SUB_BOUND)).to_owned()
@@ -577,6 +596,34 @@ impl E {
                     F::Upper => Func::upper(it.next().unwrap()),
                     F::Round => Func::round(it.next().unwrap()),
                     F::Custom => Func::cust(a("MYFUNC")).args(it.collect::<Vec<_>>()),
+                    F::Md5 => Func::md5(it.next().unwrap()),
+                    F::Random => Func::random(),
+                    F::RoundPrec => {
+                        let x = it.next().unwrap();
+                        Func::round_with_precision(x, it.next().unwrap())
+                    }
+                    F::BitAndAgg => Func::bit_and(it.next().unwrap()),
+                    F::BitOrAgg => Func::bit_or(it.next().unwrap()),
+                    F::PgToTsquery => PgFunc::to_tsquery(it.next().unwrap(), None),
+                    F::PgToTsqueryCfg => PgFunc::to_tsquery(it.next().unwrap(), Some(PG_REGCONFIG)),
+                    F::PgToTsvectorCfg => PgFunc::to_tsvector(it.next().unwrap(), Some(PG_REGCONFIG)),
+                    F::PgTsRank => {
+                        let x = it.next().unwrap();
+                        PgFunc::ts_rank(x, it.next().unwrap())
+                    }
+                    F::PgStartsWith => {
+                        let x = it.next().unwrap();
+                        PgFunc::starts_with(x, it.next().unwrap())
+                    }
+                    F::PgGenRandomUuid => PgFunc::gen_random_uuid(),
+                    F::PgJsonAgg => PgFunc::json_agg(it.next().unwrap()),
+                    F::PgArrayAgg => PgFunc::array_agg(it.next().unwrap()),
+                    F::PgArrayAggDistinct => PgFunc::array_agg_distinct(it.next().unwrap()),
+                    F::PgDateTrunc => PgFunc::date_trunc(PgDateTruncUnit::Day, it.next().unwrap()),
+                    F::PgJsonBuildObject => {
+                        let k = it.next().unwrap();
+                        PgFunc::json_build_object(vec![(k, it.next().unwrap())])
+                    }
                 };
                 fc.into()
             }
@@ -711,8 +758,34 @@ impl E {
                     (F::Upper, _) => "UPPER",
                     (F::Round, _) => "ROUND",
                     (F::Custom, _) => "MYFUNC",
+                    (F::Md5, _) => "MD5",
+                    (F::Random, Dialect::Mysql) => "RAND",
+                    (F::Random, _) => "RANDOM",
+                    (F::RoundPrec, _) => "ROUND",
+                    (F::BitAndAgg, _) => "BIT_AND",
+                    (F::BitOrAgg, _) => "BIT_OR",
+                    (F::PgToTsquery | F::PgToTsqueryCfg, _) => "TO_TSQUERY",
+                    (F::PgToTsvectorCfg, _) => "TO_TSVECTOR",
+                    (F::PgTsRank, _) => "TS_RANK",
+                    (F::PgStartsWith, _) => "STARTS_WITH",
+                    (F::PgGenRandomUuid, _) => "GEN_RANDOM_UUID",
+                    (F::PgJsonAgg, _) => "JSON_AGG",
+                    (F::PgArrayAgg | F::PgArrayAggDistinct, _) => "ARRAY_AGG",
+                    (F::PgDateTrunc, _) => "DATE_TRUNC",
+                    (F::PgJsonBuildObject, _) => "JSON_BUILD_OBJECT",
                 };
-                PT::Func(name.into(), args.iter().map(|e| e.expect(d, params)).collect(), vec![false; args.len()])
+                let mut items: Vec<PT> = args.iter().map(|e| e.expect(d, params)).collect();
+                // arguments the function constructors add themselves (bound values)
+                match f {
+                    F::PgToTsqueryCfg | F::PgToTsvectorCfg => items.insert(0, if params { PT::Param(None) } else { PT::Num(PG_REGCONFIG.to_string()) }),
+                    F::PgDateTrunc => items.insert(0, if params { PT::Param(None) } else { PT::Str("day".into()) }),
+                    _ => {}
+                }
+                let mut distinct = vec![false; items.len()];
+                if *f == F::PgArrayAggDistinct {
+                    distinct[0] = true;
+                }
+                PT::Func(name.into(), items, distinct)
             }
             E::Cast(e, ty) => PT::Cast(b(e), ty.clone()),
             E::Case(whens, els) => PT::Case(whens.iter().map(|(w, r)| (w.expect(d, params), r.expect(d, params))).collect(), els.as_ref().map(|e| b(e))),
@@ -806,7 +879,8 @@ impl E {
                     F::Lower => "lower",
                     F::Upper => "upper",
                     F::Round => "round",
-                    F::Custom => return None,
+                    F::RoundPrec => "round",
+                    _ => return None,
                 };
                 let items: Option<Vec<String>> = args.iter().map(|e| e.ref_sqlite()).collect();
                 format!("{name}({})", items?.join(", "))
@@ -1009,12 +1083,32 @@ pub fn expr(d: Dialect, depth: u32, engine: bool) -> BoxedStrategy<E> {
             (
                 2,
                 (any::<u16>(), proptest::collection::vec(inner.clone(), 2..4))
-                    .prop_map(|(fi, args)| {
-                        let fs = [F::Abs, F::Coalesce, F::IfNull, F::Greatest, F::Least, F::CharLength, F::Lower, F::Upper, F::Round];
+                    .prop_map(move |(fi, args)| {
+                        let mut fs = vec![F::Abs, F::Coalesce, F::IfNull, F::Greatest, F::Least, F::CharLength, F::Lower, F::Upper, F::Round, F::RoundPrec];
+                        if !engine {
+                            fs.extend([F::Md5, F::Random, F::BitAndAgg, F::BitOrAgg]);
+                            if d == Dialect::Postgres {
+                                fs.extend([
+                                    F::PgToTsquery,
+                                    F::PgToTsqueryCfg,
+                                    F::PgToTsvectorCfg,
+                                    F::PgTsRank,
+                                    F::PgStartsWith,
+                                    F::PgGenRandomUuid,
+                                    F::PgJsonAgg,
+                                    F::PgArrayAgg,
+                                    F::PgArrayAggDistinct,
+                                    F::PgDateTrunc,
+                                    F::PgJsonBuildObject,
+                                ]);
+                            }
+                        }
                         let f = fs[crate::runner::pick_idx(fi, fs.len())];
                         let n = match f {
-                            F::Abs | F::CharLength | F::Lower | F::Upper | F::Round => 1,
-                            F::IfNull => 2,
+                            F::Random | F::PgGenRandomUuid => 0,
+                            F::Abs | F::CharLength | F::Lower | F::Upper | F::Round | F::Md5 | F::BitAndAgg | F::BitOrAgg => 1,
+                            F::PgToTsquery | F::PgToTsqueryCfg | F::PgToTsvectorCfg | F::PgJsonAgg | F::PgArrayAgg | F::PgArrayAggDistinct | F::PgDateTrunc => 1,
+                            F::IfNull | F::RoundPrec | F::PgTsRank | F::PgStartsWith | F::PgJsonBuildObject => 2,
                             _ => args.len(),
                         };
                         E::Func(f, args.into_iter().take(n).collect())
